@@ -59,7 +59,7 @@ Theorem C13_version_data_ignores_excluded : forall cc vals vals',
 Proof. exact version_data_ignores_excluded. Qed.
 
 Definition C13_cls : clscfg :=
-  mkcls true true 0 [mkcol true false; mkcol false false; mkcol false true]
+  mkcls true true 0 [mkcol true false true; mkcol false false true; mkcol false true true]
         [mkrel O2M [0%nat] true; mkrel M2O [1%nat] false].
 Example C13_example :
   let g := mkcfg true false false false false [C13_cls] in
